@@ -158,8 +158,8 @@ def decode_map_kinds(prog, md):
                 if a[0] == "tryok" and is_call(a[1]) and len(a[1][2]) == 1 and _loop_source(a[1][2][0]) is not None:
                     kind = "array<%s>" % codec.type_of_decoder(full_of(fn, a[1]))
                     presence = "nonempty?"
-        elif len(effs) == 2:
-            ok, det = _countersig(prog, md, effs)
+        if kind == "?" and field == "counter_signatures":
+            ok, det = _countersig(prog, md, effs)       # single / multiple forms, however they are stored
             if ok:
                 kind, presence = "single-or-array<sign::CoseSignature>", "nonempty?"
         if kind == "?" and len(effs) == 1 and effs[0][1]["kind"] == "assign":
@@ -262,7 +262,8 @@ def _map_pair(ctx, ty, dk, extras):
     ok = len(loops) == 1 and len(dflt) == 1 and dflt[0][0] == extras
     if ok:
         src = loops[0].get("label_src")
-        it = codec_loop_source(src[1]) if src is not None and src[0] == "field" else None
+        from rules.c11 import extras_source
+        it = extras_source(loops[0])
         ok = it == ("field", ("param", 0), extras)
     if not ok:
         problems.append("extras: decoder pushes to `%s`, encoder does not iterate it" % extras)
